@@ -393,8 +393,15 @@ TCrash == /\ Is("crash") /\ Step
           /\ dead' = dead \cup ToSet(Ev.cs)
           /\ UNCHANGED <<vars, calls, chk, devs, taint, rdl, rdls, unsure, enqAt, ovt, mvAt, hot, retdl, arrAt>>
 
+(* the recorder's guard against calls that spin without time passing.  Nothing of the contract explains a spin -- except the     *)
+(* recorded finding redis-expire-any-category: a consumer of the DEAD category finds a dead-lettered message overdue, nacks it     *)
+(* straight back into the dead list and takes it again, for ever (the message is tainted by that deviation by then)                *)
+TSpin == /\ Is("spin") /\ Step
+         /\ Dev("redis_expire_any_category") /\ taint # {}
+         /\ UNCHANGED <<vars, calls, chk, devs, taint, rdl, rdls, dead, unsure, enqAt, ovt, mvAt, hot, retdl, arrAt>>
+
 TraceConsCfgs == {[c \in Consumers |-> [on |-> FALSE, q |-> 0, cat |-> "n", topics |-> {}]]}
-TNext == THdr \/ TCrash \/ TObs \/ TCons \/ TTime \/ TBegin \/ TMove \/ TEnd
+TNext == THdr \/ TCrash \/ TObs \/ TCons \/ TTime \/ TBegin \/ TMove \/ TEnd \/ TSpin
 TSpec == TInit /\ [][TNext]_allvars
 
 Progress == TLCSet(tid, IF TLCGet(tid) < l THEN l ELSE TLCGet(tid))
